@@ -13,7 +13,7 @@ None of this decides the values drawn (masks, uniformity, which bytes are reques
 """
 from .. import mir, flow
 from ..common import Instance, norm_id
-from .c16 import _error_region
+from .c16 import _error_region, RoundPolicy
 
 PASS_SEGS = {"into", "from", "to_bool_vartime", "is_true_vartime", "unwrap_u8", "to_bool", "clone"}
 LT = {"ct_lt": False, "lt": False, "ct_gt": True, "gt": True}
@@ -209,6 +209,7 @@ def run_b(facts, eng, report, config):
         if b["kind"] != "Closure" and b.get("name") == "try_random_bits_with_precision":
             targets[b["id"]] = b
     decided = {}
+    rounded = {}
 
     def own(b, param):
         view = eng.view(b["id"])
@@ -217,6 +218,10 @@ def run_b(facts, eng, report, config):
             if e.kind != "branch" or e.via:
                 continue
             if not any(l == "@%d" % param for l in e.labels):
+                continue
+            if any(l.startswith("rounded:") for l in e.labels):
+                # compares with a size read back from the allocated value (limb-rounded), not the requested precision
+                rounded[b["id"]] = e.info.get("span")
                 continue
             t = view.blocks[e.bb[0]]["term"]
             succs = list(dict.fromkeys(t["t"]))
@@ -263,7 +268,10 @@ def run_b(facts, eng, report, config):
         if missing:
             report.add(Instance(key, "c19.bitguard", "violation",
                                 "`%s` has no rejecting branch that depends on %s: a request the target cannot hold is not "
-                                "refused" % (b.get("name"), " / ".join(missing)), b["span"], {"body": bid}), config)
+                                "refused%s" % (b.get("name"), " / ".join(missing),
+                                               " (the comparison at %s uses a size read back from the allocated BoxedUint, "
+                                               "which is rounded up to whole limbs)" % rounded[bid] if bid in rounded else ""),
+                                b["span"], {"body": bid}), config)
         else:
             report.add(Instance(key, "c19.bitguard", "ok", "auto: rejecting branch on " + "; ".join(notes), b["span"],
                                 {"body": bid}), config)
@@ -336,7 +344,7 @@ def run_c(facts, eng, report, config):
 
 
 def run(facts, report, config):
-    eng = flow.Engine(facts, flow.Policy())
+    eng = flow.Engine(facts, RoundPolicy())
     eng.run_all(collect=False)
     run_a(facts, eng, report, config)
     run_b(facts, eng, report, config)
